@@ -43,19 +43,29 @@ CORPUS = [
      {'jsonrpc': '2.0', 'method': 'noargs'}],
     [{'jsonrpc': '2.0', 'method': 'echo', 'id': 1}, {'jsonrpc': '2.0', 'method': 'echo', 'id': 1}],
     [],
+    {'jsonrpc': '2.0', 'method': 'ctxonly', 'id': 11},
+    {'jsonrpc': '2.0', 'method': 'ctxonly', 'params': {}, 'id': 12},
+    {'jsonrpc': '2.0', 'method': 'noargs', 'id': 13},
+    {'jsonrpc': '2.0', 'method': 'sub.null', 'params': [], 'id': 14},
+    {'jsonrpc': '2.0', 'method': 'view3.vm', 'id': 15},
 ]
+VALIDATORS = (None, 'pydantic', 'jsonschema')
 TEXTS = [json.dumps(x) for x in CORPUS] + ['{', '']
 
 
 def methods():
     ms = D.std_methods()
     ms.append(D.M('view2.vm', [D.P('a')], D.ECHO, view=True))       # a view without context
+    ms.append(D.M('ctxonly', [D.P('ctx')], D.ECHO, ctx='ctx'))        # nothing but the (keyword) context parameter
+    ms.append(D.M('view3.vm', [], D.ECHO, view=True, ctx='context'))  # a view method without parameters
     return ms
 
 
-def make_case(texts, mode='history', n=None, threads=None, keying='fixed'):
+def make_case(texts, mode='history', n=None, threads=None, keying='fixed', validator=None):
     c = {'suite': NAME, 'cfg': D.cfg(methods=methods()), 'texts': texts, 'loads': [S.load_result(t) for t in texts], 'mode': mode,
          'keying': keying}
+    if validator:
+        c['validator'] = validator
     if n is not None:
         c['n'] = n
     if threads is not None:
@@ -68,21 +78,43 @@ def generate(tier, rng):
     # (a) histories followed by a probe
     for probe in TEXTS:
         yield make_case([probe])
+    # every ordered pair of corpus requests (the second is the probe)
+    for a in TEXTS:
+        for b in TEXTS:
+            yield make_case([a, b])
     n_hist = 30000 if thorough else 1500
-    for _ in range(n_hist):
+    for i in range(n_hist):
         length = rng.randrange(1, 12 if thorough else 7)
-        yield make_case([rng.choice(TEXTS) for _ in range(length)] + [rng.choice(TEXTS)])
+        yield make_case([rng.choice(TEXTS) for _ in range(length)] + [rng.choice(TEXTS)], validator=VALIDATORS[i % 3] if i % 2 else None)
     # (b) N dispatches with a fresh context object each: nothing retained, the caches do not grow with N
     for n in (1, 10, 1000):
-        for text in (TEXTS[0], TEXTS[5], TEXTS[10], TEXTS[12], TEXTS[14]):
-            yield make_case([text], mode='repeat', n=n)
+        for text in (TEXTS[0], TEXTS[5], TEXTS[10], TEXTS[12], TEXTS[14], TEXTS[17], TEXTS[19], TEXTS[21]):
+            for v in VALIDATORS:
+                if n == 1000 and v and not thorough and text not in (TEXTS[10], TEXTS[5]):
+                    continue
+                yield make_case([text], mode='repeat', n=n, validator=v)
     # (c) thread pools dispatching interleaved corpora
     for threads in ((2, 4, 8, 16) if thorough else (2, 8)):
         for _ in range(4 if thorough else 2):
             yield make_case([rng.choice(TEXTS) for _ in range(400 if thorough else 120)], mode='threads', threads=threads)
 
 
-def fresh_dispatcher(cfg, is_async):
+_SHARED = {}
+
+
+def shared_validator(kind):
+    """one validator instance per kind for the whole process, as an application has (its caches live as long)"""
+    if kind not in _SHARED:
+        if kind == 'pydantic':
+            from pjrpc.server.validators import pydantic as vp
+            _SHARED[kind] = (vp.PydanticValidator(), {})
+        else:
+            from pjrpc.server.validators import jsonschema as vj
+            _SHARED[kind] = (vj.JsonSchemaValidator(), {'schema': {'type': 'object'}})
+    return _SHARED[kind]
+
+
+def fresh_dispatcher(cfg, is_async, validator=None):
     """a dispatcher over *new* function / view-class objects, so the growth of the process-wide caches
     during this case is attributable to this case"""
     d = (pjrpc.server.AsyncDispatcher if is_async else pjrpc.server.Dispatcher)()
@@ -90,17 +122,37 @@ def fresh_dispatcher(cfg, is_async):
         key = m.get('key') or m['name']
         if m.get('view'):
             cls = S.make_callable(key, m['sig'], is_async, True, fresh=True)
+            if validator:
+                v, kw = shared_validator(validator)
+                v.validate(**kw)(cls.vm) if kw else v.validate(cls.vm)
             d.registry.add_methods(pjrpc.server.dispatcher.ViewMethod(cls, 'vm', key, m.get('ctx'), bool(m.get('positional'))))
         else:
             g = S.make_callable(key, m['sig'], is_async, False, fresh=True)
+            if validator:
+                v, kw = shared_validator(validator)
+                v.validate(**kw)(g) if kw else v.validate(g)
             d.registry.add_methods(pjrpc.server.Method(g, key, m.get('ctx'), bool(m.get('positional'))))
     return d
 
 
+def _caches():
+    """every functools cache hanging off the server package's classes / modules (found by looking, so that a cache
+    added later is measured too)"""
+    import sys
+    seen = {}
+    for name, mod in list(sys.modules.items()):
+        if not name.startswith('pjrpc.server') or mod is None:
+            continue
+        for obj in list(vars(mod).values()):
+            holders = [obj] if not isinstance(obj, type) else [obj] + [v for v in vars(obj).values()]
+            for h in holders:
+                if hasattr(h, 'cache_info') and callable(getattr(h, 'cache_info', None)):
+                    seen[id(h)] = h
+    return list(seen.values())
+
+
 def cache_size():
-    base = validators.base.BaseValidator
-    fn = getattr(base, '_signature', None) or base.signature
-    return fn.cache_info().currsize
+    return sum(c.cache_info().currsize for c in _caches())
 
 
 def dispatch_on(d, text, is_async, ctx):
@@ -119,17 +171,22 @@ class Ctx2(S.Ctx):
 
 def run_half(c, is_async):
     S.set_bodies(c['cfg'])
-    if c['mode'] == 'repeat':
-        gc.collect()
-    before = cache_size()
-    d = fresh_dispatcher(c['cfg'], is_async)
+    vk = c.get('validator')
     out = {}
+    if c['mode'] == 'history':
+        # the probe alone on a fresh dispatcher, *before* the history has run
+        d0 = fresh_dispatcher(c['cfg'], is_async, vk)
+        o0 = dispatch_on(d0, c['texts'][-1], is_async, S.CTX)
+        out['probe_before'] = {'result': o0['result'], 'events': o0['events']}
+        del d0
+    before = cache_size()
+    d = fresh_dispatcher(c['cfg'], is_async, vk)
     if c['mode'] == 'history':
         outs = [dispatch_on(d, t, is_async, S.CTX) for t in c['texts']]
         out['outs'] = [{'result': o['result'], 'events': o['events']} for o in outs]
         out['cache_growth'] = cache_size() - before
         # the probe alone on a fresh dispatcher
-        d2 = fresh_dispatcher(c['cfg'], is_async)
+        d2 = fresh_dispatcher(c['cfg'], is_async, vk)
         o2 = dispatch_on(d2, c['texts'][-1], is_async, S.CTX)
         out['probe_fresh'] = {'result': o2['result'], 'events': o2['events']}
     elif c['mode'] == 'repeat':
@@ -142,7 +199,8 @@ def run_half(c, is_async):
             refs.append(weakref.ref(ctx))
             last = dispatch_on(d, c['texts'][0], is_async, ctx)
             del ctx
-        gc.collect()
+        if any(r() is not None for r in refs):
+            gc.collect()        # contexts kept alive by a reference cycle only are not retained
         out['live_contexts'] = sum(1 for r in refs if r() is not None)
         out['last_kind'] = last['result']['k']
         out['last_codes'] = last['result'].get('codes')
@@ -193,13 +251,21 @@ def _impl_half(c, o):
     return {'results': o['threaded']}
 
 
+def _strip(c, h):
+    # the model's memo table is the signature cache; the schema / type validators keep further bounded caches
+    # (one entry per distinct signature), judged by the oracle's bound instead
+    if h is not None and c.get('validator'):
+        h = {k: v for k, v in h.items() if k != 'memo'}
+    return h
+
+
 def project(prop, c, out):
     if prop not in ('C13',):
         return None
     if 'memo_size' in out:
-        m = _model_half(c, out)
+        m = _strip(c, _model_half(c, out))
         return {h: (None if (c['mode'] == 'threads' and h == 'async') else m) for h in HALVES}
-    return {h: _impl_half(c, out[h]) for h in HALVES}
+    return {h: _strip(c, _impl_half(c, out[h])) for h in HALVES}
 
 
 def label(c, mo):
@@ -218,16 +284,17 @@ def oracle(prop, c, out):
         def fail(key, what, expected=None):
             f.append(Finding(prop, key, f'[{half}] {what}', c, o, expected))
         if c['mode'] == 'history':
-            if o['outs'][-1] != o['probe_fresh']:
-                fail('history-dependent-answer', 'the probe is answered differently after the history than on a fresh dispatcher', o['probe_fresh'])
-            nmethods = len(c['cfg']['methods'])
+            if o['outs'][-1] != o['probe_fresh'] or o['outs'][-1] != o['probe_before']:
+                fail('history-dependent-answer', 'the probe is answered differently after the history than on a fresh dispatcher',
+                     {'fresh_after': o['probe_fresh'], 'fresh_before': o['probe_before']})
+            nmethods = len(c['cfg']['methods']) * (3 if c.get('validator') else 1)
             if o['cache_growth'] > nmethods:
                 fail('cache-grows', f'the validator cache grew by {o["cache_growth"]} entries for {nmethods} methods')
         elif c['mode'] == 'repeat':
             if o['live_contexts']:
                 fail('context-retained', f'{o["live_contexts"]} of {c["n"]} per-request context objects are still referenced after the dispatches returned')
-            if o['cache_growth'] > len(c['cfg']['methods']):
-                fail('cache-grows', f'the validator cache grew by {o["cache_growth"]} entries over {c["n"]} dispatches')
+            if o['cache_growth'] > len(c['cfg']['methods']) * (3 if c.get('validator') else 1):
+                fail('cache-grows', f'the validator caches grew by {o["cache_growth"]} entries over {c["n"]} dispatches')
         else:
             if o['serial'] != o['threaded']:
                 bad = next(i for i, (a, b) in enumerate(zip(o['serial'], o['threaded'])) if a != b)
